@@ -208,5 +208,5 @@ pub fn build(forms: &[FormT], e: &mut Ent, f: &Force) -> (StepCase, Tag) {
     let code = encode(&insn);
     let pc = e.code_addr(code.len() as u32, &[]);
     let bus = e.bus_cfg();
-    (StepCase { code, pc, er, ccr, patches: vec![], bus, irq: None }, Tag { form, insn, sreg, dreg, a, b, same_reg })
+    (StepCase { code, pc, er, ccr, patches: vec![], bus, irq: None, primer: None }, Tag { form, insn, sreg, dreg, a, b, same_reg })
 }
